@@ -34,9 +34,12 @@ def ref_run(case, fixed=True):
             if fixed:
                 cap.setdefault(v, {}).setdefault(u, 0)
     s, t = case["source"], case["sink"]
+    cap.setdefault(s, {})
+    for u in list(cap):
+        for v in cap[u]:
+            cap.setdefault(v, {})
     flow = {}
-    f = lambda a, b: flow.get((a, b), 0)  # noqa: E731
-    c_ = lambda a, b: cap.get(a, {}).get(b, 0)  # noqa: E731
+    fget = flow.get
     total = its = cancels = 0
     events = set()
     state = {}    # directed residual arc -> 1 exhausted, 2 restored through the opposite direction, 3 crossed again
@@ -54,8 +57,8 @@ def ref_run(case, fixed=True):
             if n == t:
                 path = p
                 break
-            for nb in cap.get(n, {}):
-                if nb not in vis and cap[n][nb] - f(n, nb) + f(nb, n) > 0:
+            for nb, cnb in cap[n].items():
+                if nb not in vis and cnb - fget((n, nb), 0) + fget((nb, n), 0) > 0:
                     vis.add(nb)
                     q.append((nb, p + [nb]))
         if not path:
@@ -64,35 +67,37 @@ def ref_run(case, fixed=True):
             break
         its += 1
         prs = list(zip(path, path[1:]))
-        d = min(c_(u, v) - f(u, v) + f(v, u) for u, v in prs)
+        d = min(cap[u].get(v, 0) - fget((u, v), 0) + fget((v, u), 0) for u, v in prs)
         for u, v in prs:
-            cuv, cvu, fvu = c_(u, v), c_(v, u), f(v, u)
-            if state.get((u, v)) == 2:
-                state[(u, v)] = 3
-                events.add("e1")
-            if state.get((v, u)) == 1:
-                state[(v, u)] = 2
-            k = frozenset((u, v))
-            uses[k] = uses.get(k, 0) + 1
-            if uses[k] >= 3:
+            cuv, cvu, fvu, fuv = cap[u].get(v, 0), cap[v].get(u, 0), fget((v, u), 0), fget((u, v), 0)
+            if state:
+                if state.get((u, v)) == 2:
+                    state[(u, v)] = 3
+                    events.add("e1")
+                if state.get((v, u)) == 1:
+                    state[(v, u)] = 2
+            k = (v, u) if (v, u) in uses else (u, v)
+            nu = uses[k] = uses.get(k, 0) + 1
+            if nu >= 3:
                 events.add("e4")
             if fvu > 0:
                 cancels += 1
                 if cuv == 0:
                     rev_only = True
                 if cuv > 0 and cvu > 0:
-                    prog["e2"] = max(prog["e2"], 1)
+                    if prog["e2"] < 1:
+                        prog["e2"] = 1
                     if fvu < d:
                         events.add("e2")
-                        prog["e2"] = max(prog["e2"], 2)
-                        if f(u, v) + d > cuv:
+                        prog["e2"] = 2
+                        if fuv + d > cuv:
                             events.add("e3")
-                r = min(d, fvu)
-                flow[(v, u)] = fvu - r
-                flow[(u, v)] = f(u, v) + d - r
+                r = d if d < fvu else fvu
+                flow[(v, u)] = fvu = fvu - r
+                flow[(u, v)] = fuv = fuv + d - r
             else:
-                flow[(u, v)] = f(u, v) + d
-            if c_(u, v) - f(u, v) + f(v, u) == 0 and state.get((u, v), 0) < 3:
+                flow[(u, v)] = fuv = fuv + d
+            if cuv - fuv + fvu == 0 and state.get((u, v), 0) < 3:
                 state[(u, v)] = max(1, state.get((u, v), 0))
         total += d
     prog["e1"] = max(state.values(), default=0)
